@@ -286,7 +286,8 @@ Definition field_next (up : list N) : iter_step :=
 Inductive scalar : Set :=
 | Int32 | Int64 | UInt32 | UInt64 | SInt32 | SInt64
 | Fixed32 | Fixed64 | SFixed32 | SFixed64 | Float | Double | Bool_
-| Bytes | Bytes16 | Bytes32 | Bytes64 | String_.
+| Bytes | Bytes16 | Bytes32 | Bytes64 | String_
+| StringPath.   (* field type `string` with the native type PathBuf: packs the path's OS bytes *)
 
 (* FieldType::WIRE_TYPE (as of the fix for F11, float is ThirtyTwo; Wire/GenWT.v re-extracts) *)
 Definition wire_of (s : scalar) : wiretype :=
@@ -294,7 +295,7 @@ Definition wire_of (s : scalar) : wiretype :=
   | Int32 | Int64 | UInt32 | UInt64 | SInt32 | SInt64 | Bool_ => WVarint
   | Fixed64 | SFixed64 | Double => WSixtyFour
   | Fixed32 | SFixed32 | Float => WThirtyTwo
-  | Bytes | Bytes16 | Bytes32 | Bytes64 | String_ => WLengthDelimited
+  | Bytes | Bytes16 | Bytes32 | Bytes64 | String_ | StringPath => WLengthDelimited
   end.
 
 (* native values of scalar fields *)
@@ -317,13 +318,15 @@ Definition sval_ok (s : scalar) (v : sval) : bool :=
   | Bytes, SB bs => bytes_okb bs && (len bs <? W64)
   | (Bytes16 | Bytes32 | Bytes64), SB bs => bytes_okb bs && (len bs =? fixed_len s)
   | String_, SB bs => bytes_okb bs && (len bs <? W64) && utf8_ok bs
+  (* a PathBuf under `string`: the values OUTSIDE the known class pathbuf-non-utf8 (see sval_native) *)
+  | StringPath, SB bs => bytes_okb bs && (len bs <? W64) && utf8_ok bs
   | _, _ => false
   end.
 
 (* <T as Default>::default() of the native type *)
 Definition sval_default (s : scalar) : sval :=
   match s with
-  | Bytes | String_ => SB []
+  | Bytes | String_ | StringPath => SB []
   | Bytes16 | Bytes32 | Bytes64 => SB (repeat 0 (N.to_nat (fixed_len s)))
   | _ => SZ 0
   end.
@@ -340,7 +343,7 @@ Definition pack_scalar (s : scalar) (v : sval) : list N :=
   | (Fixed64 | Double), SZ z => le_bytes 8 (Z.to_N z)
   | SFixed32, SZ z => le_bytes 4 (unsigned_of 32 z)
   | SFixed64, SZ z => le_bytes 8 (unsigned_of 64 z)
-  | (Bytes | Bytes16 | Bytes32 | Bytes64 | String_), SB bs => bytes_pack bs
+  | (Bytes | Bytes16 | Bytes32 | Bytes64 | String_ | StringPath), SB bs => bytes_pack bs
   | _, _ => []
   end.
 Definition pack_sz_scalar (s : scalar) (v : sval) : N :=
@@ -351,7 +354,7 @@ Definition pack_sz_scalar (s : scalar) (v : sval) : N :=
   | Bool_, SZ z => v64_pack_sz (if (z =? 0)%Z then 0 else 1)
   | (Fixed32 | Float | SFixed32), SZ _ => 4
   | (Fixed64 | Double | SFixed64), SZ _ => 8
-  | (Bytes | Bytes16 | Bytes32 | Bytes64 | String_), SB bs => v64_pack_sz (len bs) + len bs
+  | (Bytes | Bytes16 | Bytes32 | Bytes64 | String_ | StringPath), SB bs => v64_pack_sz (len bs) + len bs
   | _, _ => 0
   end.
 
@@ -391,4 +394,16 @@ Definition unpack_scalar (s : scalar) (buf : list N) : res (sval * list N) :=
   | String_ =>
       '(v, h, t) <- take_prefixed buf ;;
       if utf8_ok h then Ok (SB h, t) else Err EStringEncoding
+  | StringPath =>          (* the derive unpacks by field type: string::unpack, then From<string> for PathBuf *)
+      '(v, h, t) <- take_prefixed buf ;;
+      if utf8_ok h then Ok (SB h, t) else Err EStringEncoding
+  end.
+
+(* every value the native Rust type can hold.  It differs from sval_ok at StringPath only: a
+   PathBuf is any byte string, and FieldPackHelper<string> for PathBuf packs its bytes as they
+   are, while string::unpack insists on UTF-8 (known class pathbuf-non-utf8) *)
+Definition sval_native (s : scalar) (v : sval) : bool :=
+  match s, v with
+  | StringPath, SB bs => bytes_okb bs && (len bs <? W64)
+  | _, _ => sval_ok s v
   end.
